@@ -1790,7 +1790,9 @@ def gen_restore_stmt(node, code, codegen):
     if target:
         label_index = code.get_data_label_index(target)
     else:
-        label_index = -1
+        # RESTORE without a label rewinds to the very first DATA item,
+        # which is the first item of the first part
+        label_index = 0
 
     code.add(
         ('push%', label_index),
